@@ -242,3 +242,142 @@ func (x *runner) streamScenario(r *mc.Run) {
 			return !r.Expired()
 		})
 }
+
+// ---- numeric ranges in INNER containers: tar entry headers with extreme size fields, correct checksums ----
+
+// tarBlock crafts one 512-byte ustar/GNU header. size12 is the raw 12-byte size field.
+func tarBlock(name string, typeflag byte, size12 []byte) []byte {
+	h := make([]byte, 512)
+	copy(h[0:], name)
+	copy(h[100:], "0000644\x00")
+	copy(h[108:], "0000000\x00")
+	copy(h[116:], "0000000\x00")
+	copy(h[124:], size12)
+	copy(h[136:], "13577336400\x00")
+	h[156] = typeflag
+	copy(h[257:], "ustar\x0000")
+	copy(h[148:], "        ")
+	sum := 0
+	for _, c := range h {
+		sum += int(c)
+	}
+	copy(h[148:], fmt.Sprintf("%06o\x00 ", sum))
+	return h
+}
+
+func octal12(v uint64) []byte { return []byte(fmt.Sprintf("%011o\x00", v)) }
+
+// base256 is the GNU binary size encoding: high bit of the first byte set, big-endian two's complement.
+func base256(v int64) []byte {
+	b := make([]byte, 12)
+	fillb := byte(0)
+	if v < 0 {
+		fillb = 0xff
+	}
+	for i := range b {
+		b[i] = fillb
+	}
+	for i := 0; i < 8; i++ {
+		b[11-i] = byte(uint64(v) >> (8 * uint(i)))
+	}
+	b[0] |= 0x80
+	return b
+}
+
+func pad512(b []byte) []byte {
+	for len(b)%512 != 0 {
+		b = append(b, 0)
+	}
+	return b
+}
+
+func paxRecord(k, v string) string {
+	n := len(k) + len(v) + 3
+	for {
+		s := fmt.Sprintf("%d %s=%s\n", n, k, v)
+		if len(s) == n {
+			return s
+		}
+		n = len(s)
+	}
+}
+
+type tarSize struct {
+	desc string
+	pax  string // PAX size record value ("" = none)
+	f12  []byte
+}
+
+func tarSizes() []tarSize {
+	out := []tarSize{
+		{"octal 0", "", octal12(0)}, {"octal 1", "", octal12(1)}, {"octal 2^31-1", "", octal12(1<<31 - 1)}, {"octal 2^31", "", octal12(1 << 31)},
+		{"octal 2^32", "", octal12(1 << 32)}, {"octal 2^33-1 (largest)", "", octal12(1<<33 - 1)},
+		{"base-256 2^33", "", base256(1 << 33)}, {"base-256 2^40", "", base256(1 << 40)}, {"base-256 2^47", "", base256(1 << 47)}, {"base-256 2^62", "", base256(1 << 62)},
+		{"base-256 -1", "", base256(-1)}, {"base-256 -2^62", "", base256(-(1 << 62))}, {"base-256 5 (small, binary)", "", base256(5)},
+		{"PAX size=2^47", "140737488355328", octal12(0)}, {"PAX size=-1", "-1", octal12(0)}, {"PAX size=2^63", "9223372036854775808", octal12(0)}, {"PAX size=x", "x", octal12(5)},
+		{"size field blank", "", []byte("            ")}, {"size field not octal", "", []byte("0000000009x\x00")},
+	}
+	for _, v := range gen.AuditInts(0, 1<<62, 6) { // alphabet audit: numbers a change introduced, as entry sizes
+		out = append(out, tarSize{fmt.Sprintf("audit %d", v), "", base256(v)})
+	}
+	return out
+}
+
+// tarWithSize: a tar whose entry `name` claims the given size while body is what really follows.
+func tarWithSize(name string, ts tarSize, body string, more []byte) []byte {
+	var b []byte
+	if ts.pax != "" {
+		rec := paxRecord("size", ts.pax)
+		b = append(b, tarBlock("PaxHeaders.0/"+strings.TrimPrefix(name, "./"), 'x', octal12(uint64(len(rec))))...)
+		b = append(b, pad512([]byte(rec))...)
+	}
+	b = append(b, tarBlock(name, '0', ts.f12)...)
+	b = append(b, pad512([]byte(body))...)
+	b = append(b, more...)
+	return append(b, make([]byte, 1024)...)
+}
+
+func (x *runner) tarHeaderScenario(r *mc.Run) {
+	type tin struct {
+		desc string
+		ms   []gen.ArmMember
+	}
+	var ins []tin
+	goodCtl, goodDat := tarOf("./control", controlText), tarOf("./usr/share/doc/a/x", "hello\n")
+	for _, ts := range tarSizes() {
+		ctl := tarWithSize("./control", ts, controlText, nil)
+		// the same entry after an ordinary first entry, and a data entry
+		ctl2 := append(append([]byte(nil), goodCtl[:1024]...), tarWithSize("./control", ts, controlText, nil)...)
+		dat := tarWithSize("./usr/share/doc/a/x", ts, "hello\n", nil)
+		for _, z := range []bool{false, true} {
+			enc := func(name string, raw []byte) gen.ArmMember {
+				if z {
+					return mem(name+".gz", gz(raw))
+				}
+				return mem(name, raw)
+			}
+			tag := map[bool]string{false: " (stored)", true: " (gzip)"}[z]
+			bin := mem("debian-binary", []byte("2.0\n"))
+			ins = append(ins,
+				tin{"control entry size " + ts.desc + tag, []gen.ArmMember{bin, enc("control.tar", ctl), enc("data.tar", goodDat)}},
+				tin{"second control entry size " + ts.desc + tag, []gen.ArmMember{bin, enc("control.tar", ctl2), enc("data.tar", goodDat)}},
+				tin{"data entry size " + ts.desc + tag, []gen.ArmMember{bin, enc("control.tar", goodCtl), enc("data.tar", dat)}})
+		}
+	}
+	const chunk = 4
+	r.Scenario("tar-entry-sizes", map[string]interface{}{"inputs": len(ins), "entries": "./control (first, and after another entry), a data entry", "containers": "stored and gzip",
+		"size_fields": "octal 0, 1, 2^31-1, 2^31, 2^32, 2^33-1 | GNU base-256 2^33, 2^40, 2^47, 2^62, -1, -2^62, 5 | PAX size 2^47, -1, 2^63, x | blank | not octal; correct header checksums",
+		"via":         "ar level (every member also opened with Tarfile and drained) + deb.Load + deb.LoadFile (closer,deb); the harness never allocates by the claimed size"},
+		(len(ins)+chunk-1)/chunk, func(shard int, st *mc.Stats) bool {
+			lim := limiter{}
+			for i := shard * chunk; i < (shard+1)*chunk && i < len(ins); i++ {
+				b := gen.ArmBuild(ins[i].ms)
+				st.Transitions++
+				x.one("tar-entry-sizes", st, lim, b, "ar", ins[i].desc)
+				if !x.one("tar-entry-sizes", st, lim, b, "load", ins[i].desc) || !x.one("tar-entry-sizes", st, lim, b, fileVia("closer,deb"), ins[i].desc) {
+					return false
+				}
+			}
+			return !r.Expired()
+		})
+}
